@@ -482,6 +482,7 @@ def check_form(ctx, form, xform, model=None):
         _fail(ctx, Failure("ref-token-survives", f"`${{` left in the output: …{xform[max(0,i-60):i+40]}…", case,
                            extra={"only_static_minus_defaults": "${" not in rest}))
     els, prs = probes(form, xi)
+    ctx._c03_triggers = []
     byname = {}
     for e in els:
         byname.setdefault(e.name, []).append(e)
@@ -497,6 +498,8 @@ def check_form(ctx, form, xform, model=None):
             if sorted(got) != sorted(want):
                 _fail(ctx, Failure("trigger-setvalue", f"setvalue for {cpath} expected in controls {want}, found in {got}",
                                  case, extra={"cell": cell, "referrer": cpath}))
+            if got:
+                ctx._c03_triggers.append({"owner": cpath, "name": e.name, "ref": cpath})
             continue
         if not got:
             _fail(ctx, Failure("cell-not-found", f"{cell} of {cpath}: emitted string not found", case,
@@ -641,6 +644,24 @@ def corr_find(ctx, texts):
             ctx.mismatch("refsClosed", {"text": t}, impl_closed, m["closed"])
 
 
+ALL_CELLS = ("seed", "relevant", "constraint", "required", "read_only", "calculation", "bind::custom", "body::custom", "default",
+             "choice_filter", "repeat_count-expr", "trigger-value", "repeat_count", "repeat_count-ptr", "trigger",
+             "label", "hint", "guidance_hint", "constraint_message", "required_message")
+_CELL_FLAGS: dict = {}
+
+
+def cell_flags(ctx, cell):
+    """context kind and `use_current` / `reference_parent` of the cell kind: the model's table `Pyxv.Refs.cellFlags`
+    (driver op refs.cellflags), which Proofs/C03Sites.lean pins to the call sites read from the Python AST on this run"""
+    if not _CELL_FLAGS:
+        for c, f in zip(ALL_CELLS, ctx.driver.call("refs.cellflags", cells=list(ALL_CELLS))):
+            _CELL_FLAGS[c] = f
+            ctx.notes.setdefault("cell-flags-from-model", {})[c] = {"ctx": f["ctx"], "uc": f["uc"], "rp": f["rp"], "sites": len(f["sites"])}
+    if cell not in _CELL_FLAGS:
+        _CELL_FLAGS[cell] = ctx.driver.call("refs.cellflags", cells=[cell])[0]
+    return _CELL_FLAGS[cell]
+
+
 FULL_CELLS = ("seed", "relevant", "constraint", "required", "read_only", "calculation", "bind::custom", "body::custom", "default",
               "choice_filter", "repeat_count-expr", "trigger-value")
 
@@ -654,12 +675,17 @@ def corr_insert(ctx, form, holes, tree):
         if h["cell"] not in FULL_CELLS or key in seen:
             continue
         seen.add(key)
-        items.append({"ctx": h["ctx"], "uc": h["cell"] == "choice_filter", "rp": False, "text": h["src"]})
+        cf = cell_flags(ctx, h["cell"])
+        items.append({"ctx": h["ctx"] if cf["ctx"] == "owner" else None, "uc": cf["uc"], "rp": cf["rp"], "text": h["src"]})
         outs.append(h)
     if not items:
         return
-    for h, q, m in zip(outs, items, ctx.driver.call("refs.insert", tree=tree, items=items)):
+    # the same cells through `insertXpathsCell`: the model picks context and flags from the cell kind alone
+    bycell = ctx.driver.call("refs.insertcell", tree=tree, items=[{"owner": h["ctx"], "cell": h["cell"], "text": h["src"]} for h in outs])
+    for h, q, m, mc in zip(outs, items, ctx.driver.call("refs.insert", tree=tree, items=items), bycell):
         ctx.count(f"insert_xpaths-from-text:{m['out']}")
+        if (m["out"] == "ok") != (mc["out"] == "ok") or (m["out"] == "ok" and m["text"] != mc["text"]):
+            ctx.mismatch(f"insertXpathsCell of {h['cell']}", {"form": form, "query": q}, m.get("text", m["out"]), mc.get("text", mc["out"]))
         if m["out"] == "unsupported":
             continue
         # a cell with a line break: how the break reaches the attribute (cell cleaning, XML attribute-value normalisation)
@@ -672,6 +698,17 @@ def corr_insert(ctx, form, holes, tree):
 def corr_whole(ctx, form, holes, survey):
     """every hole of the conversion against the model's `refFor` on the implementation's tree"""
     corr_insert(ctx, form, holes, survey_tree(survey))
+    trg = getattr(ctx, "_c03_triggers", [])
+    if trg:
+        # the `ref` of each trigger's setvalue (found at the absolute path of the calculated question) against the model,
+        # which resolves `${name}` from the survey for this cell kind
+        res = ctx.driver.call("refs.insertcell", tree=survey_tree(survey),
+                              items=[{"owner": t["owner"], "cell": "trigger", "text": "${%s}" % t["name"]} for t in trg])
+        for t, m in zip(trg, res):
+            ctx.count(f"trigger-ref-from-model:{m['out']}")
+            if m["out"] != "ok" or m["text"].strip() != t["ref"]:
+                ctx.mismatch("trigger ref", {"form": form, "query": t}, t["ref"], m.get("text", m["out"]))
+        ctx._c03_triggers = []
     srcs = sorted({h["src"] for h in holes})
     if srcs:
         corr_find(ctx, srcs)
@@ -683,7 +720,7 @@ def corr_whole(ctx, form, holes, survey):
              "ls": h["info"]["last_saved"],
              "ia": code_ia_flag(h["src"], h["info"]["start"], h["info"]["end"], h["info"]["name"]),
              "ip": h["flags"]["in_pred"] and h["cell"] != "choice_filter",
-             "uc": h["cell"] == "choice_filter", "rp": False}
+             "uc": cell_flags(ctx, h["cell"])["uc"], "rp": cell_flags(ctx, h["cell"])["rp"]}
         if h["cell"] not in TEXT_CELLS and h["cell"] != "choice_filter":
             # bind / attribute cells: the whole cell is the regex subject, so the model computes the flags itself
             q.update({"text": h["src"], "start": h["info"]["start"], "end": h["info"]["end"]})
